@@ -327,7 +327,15 @@ class StorageEnv:
                 elif op[0] == "enter":
                     res.append("ok" if storage.__enter__() is storage else "enter-returned-other")
                 elif op[0] == "exit":
-                    storage.__exit__(None, None, None); res.append("ok")
+                    # every other session is left by an exception raised in its body
+                    if len(res) % 2:
+                        try:
+                            raise KeyError("session body failed")
+                        except KeyError as e:
+                            storage.__exit__(KeyError, e, e.__traceback__)
+                    else:
+                        storage.__exit__(None, None, None)
+                    res.append("ok")
             except IndexError:
                 res.append("IndexError")
             except ValueError:
